@@ -401,7 +401,7 @@ func keepsFrame(op compiler.Opcode) bool {
     wrap int64
     ghostset sincePoll = ghost(sincePoll) + 1
     split instruction.Opcode() in 0..51
-    assumes covered(instruction.Opcode())
+    assumes @scope-covered-opcodes covered(instruction.Opcode())
     assumepre Clone, IsEqual, Display, Fields
     dyncalls-pure
     requires instrPre(*self, instruction)
